@@ -190,6 +190,74 @@ def run(ctx):
         if bad:
             ctx.violation("read-back-equals-written-object", dict(case=dict(hvhist.history_json(h), find_peaks_kwargs=kw, range=list(r)), differing=bad),
                           seam="round trip with find_peaks_kwargs")
+    # the caller passes ITS dictionary a second time after changing it in place: the second update must take effect (the object must not
+    # have kept the caller's dictionary and then compare it with itself), and what is written must read back as the object's state
+    for j in range(ctx.budget(16, 160)):
+        kind = "T" if j % 2 == 0 else "A"
+        h = hvhist.build_history(rng, 7000 + j, kind, 0, with_stats=False)
+        m = h["mirror"]; obj = m.obj
+        h2 = hvhist.build_history(np.random.default_rng(0), 7000 + j, kind, 0, with_stats=False)
+        obj.meta["processing_method"] = "traditional" if kind == "T" else "azimuthal"
+        key, v1, v2 = [("prominence", 0.05, float(rng.uniform(0.8, 3.0))), ("height", 0.0, float(rng.uniform(2.0, 5.0))), ("distance", 1, int(rng.integers(3, 9)))][j % 3]
+        r = hvgen.gen_range(rng, m.freq) if j % 4 else (None, None)
+        kw = {key: v1}
+        obj.update_peaks_bounded(search_range_in_hz=r, find_peaks_kwargs=kw)
+        kw[key] = v2                                           # edited in place ...
+        obj.update_peaks_bounded(search_range_in_hz=r, find_peaks_kwargs=kw)      # ... and passed again with the same range
+        fresh = hvgen.Mirror.trad(1, m.freq, m.rows).obj if kind == "T" else hvgen.Mirror.az(1, m.freq, m.rows_per_az, m.azimuths).obj
+        fresh.update_peaks_bounded(search_range_in_hz=r, find_peaks_kwargs={key: v2})
+        ctx.supporting["kwargs_second_update_cases"] = ctx.supporting.get("kwargs_second_update_cases", 0) + 1
+        bad = hvgen.cmp_state(hvgen.impl_state(obj), hvgen.impl_state(fresh))
+        if bad:
+            ctx.violation("read-back-equals-written-object", dict(case=dict(hvhist.history_json(h), find_peaks_kwargs_first={key: v1}, find_peaks_kwargs_second={key: v2}, range=list(r)),
+                                                                  differing=bad, note="state after the second update differs from a fresh object updated once with the second options"),
+                          seam="update_peaks_bounded called twice with one dictionary edited in place")
+            continue
+        hs = obj.hvsrs if kind == "A" else [obj]
+        if any(int(np.sum(x.valid_window_boolean_mask)) < 2 or not np.array_equal(x.valid_window_boolean_mask, x.valid_peak_boolean_mask) for x in hs):
+            continue
+        fname = os.path.join(WORK, f"c12_k2_{j}.csv")
+        try:
+            hvsrpy.write_hvsr_object_to_file(obj, fname)
+            back = hvsrpy.read_hvsr_object_from_file(fname)
+        except hvgen.STAT_ERRS:
+            continue
+        finally:
+            if os.path.exists(fname):
+                os.remove(fname)
+        bad = hvgen.cmp_state(hvgen.impl_state(obj), hvgen.impl_state(back))
+        if bad:
+            ctx.violation("read-back-equals-written-object", dict(case=dict(hvhist.history_json(h), find_peaks_kwargs={key: v2}, range=list(r)), differing=bad),
+                          seam="round trip after two updates with one dictionary")
+    # the two accept masks are independent attributes: any combination must survive the round trip, each under its own name
+    for j in range(ctx.budget(16, 160)):
+        kind = "T" if j % 2 == 0 else "A"
+        h = hvhist.build_history(rng, 8000 + j, kind, int(rng.integers(0, 3)), with_stats=False)
+        m = h["mirror"]; obj = m.obj
+        obj.meta["processing_method"] = "traditional" if kind == "T" else "azimuthal"
+        for x in (obj.hvsrs if kind == "A" else [obj]):
+            n = x.n_curves
+            vw = rng.random(n) < 0.75
+            vp = vw & (rng.random(n) < 0.7)
+            if vw.sum() < 2 or vp.sum() < 2 or np.array_equal(vw, vp):
+                vw[:] = True; vp[:] = True; vp[int(rng.integers(0, n))] = False
+            x.valid_window_boolean_mask = vw
+            x.valid_peak_boolean_mask = vp
+        fname = os.path.join(WORK, f"c12_m{j}.csv")
+        try:
+            hvsrpy.write_hvsr_object_to_file(obj, fname)
+            back = hvsrpy.read_hvsr_object_from_file(fname)
+        except hvgen.STAT_ERRS as e:
+            continue
+        finally:
+            if os.path.exists(fname):
+                os.remove(fname)
+        ctx.supporting["independent_mask_roundtrips"] = ctx.supporting.get("independent_mask_roundtrips", 0) + 1
+        a, b = hvgen.impl_state(obj), hvgen.impl_state(back)
+        bad = hvgen.cmp_state(a, b)
+        if bad:
+            ctx.violation("read-back-equals-written-object", dict(case=hvhist.history_json(h), differing=bad, written=a, read_back=b),
+                          seam="round trip with independent window / peak masks")
     # diffuse field
     for j in range(ctx.budget(20, 200)):
         freq = hvgen.gen_freq(rng); amp = hvgen.gen_curve(rng, freq)
